@@ -5,6 +5,7 @@ import hashlib
 import itertools
 import os
 import random
+import shutil
 import subprocess
 
 import common
@@ -211,6 +212,48 @@ def fake_key(i, ht='sha256'):
     return hashlib.new(ht, b'missing-%d' % i).hexdigest()
 
 
+def page_boundaries(ck: Check, pid='C16'):
+    """index sizes exactly at, one below and one above the multiples of the 1000-row page used when the index is walked by primary key
+    (list_all_objects, the known-keys listing of no_holes): every packed key is listed once; content that is already packed - the most
+    recently packed object included - is recognised by no_holes=True in both modes: the pack does not grow, no row is added"""
+    import sqlite3
+    common.use_repo()
+    from disk_objectstore import Container
+    root = common.scratch_root()
+    try:
+        for n in (999, 1000, 1001, 2000):
+            for rt in (True, False):
+                d = os.path.join(root, f'p{n}{int(rt)}')
+                c = Container(d)
+                c.init_container(clear=True, pack_size_target=10 ** 9)
+                contents = [b'page-%d-' % i * (1 + i % 3) for i in range(n)]
+                keys = c.add_objects_to_pack(contents, compress=False)
+                size0 = os.path.getsize(os.path.join(d, 'packs', '0'))
+                again = [contents[-1], contents[0], contents[n // 2], contents[-1]]
+                k2 = c.add_objects_to_pack(again, no_holes=True, no_holes_read_twice=rt)
+                size1 = os.path.getsize(os.path.join(d, 'packs', '0'))
+                con = sqlite3.connect(os.path.join(d, 'packs.idx'))
+                nrows = con.execute('select count(*) from db_object').fetchone()[0]
+                con.close()
+                listed = list(c.list_all_objects())
+                case = {'kind': 'page-boundary', 'rows': n, 'read_twice': rt}
+                ck.count(('page-boundary', n, rt), nontrivial=True)
+                if k2 != [keys[-1], keys[0], keys[n // 2], keys[-1]]:
+                    ck.fail(f'no_holes re-add of packed content returns other keys (index of {n} rows)', case, f'{pid}:page-keys')
+                if size1 != size0 or nrows != n:
+                    ck.fail(f'storing content that is already packed with no_holes=True (read_twice={rt}) on an index of exactly {n} rows grew the pack '
+                            f'{size0} -> {size1} bytes / rows {n} -> {nrows}', case, f'{pid}:page-noholes')
+                if sorted(listed) != sorted(keys):
+                    ck.fail(f'list_all_objects lists {len(listed)} ({len(set(listed))} distinct) keys for an index of {n} rows', case, f'{pid}:page-list')
+                if c.get_object_content(keys[-1]) != contents[-1]:
+                    ck.fail(f'last packed object of an index of {n} rows does not read back', case, f'{pid}:page-read')
+                c.close()
+                shutil.rmtree(d, ignore_errors=True)
+    finally:
+        shutil.rmtree(root, ignore_errors=True)
+    ck.cov['page_boundary_index_sizes'] = [999, 1000, 1001, 2000]
+
+
 def bulk_api(ck: Check, dos, tier, lowered: bool):
     from disk_objectstore import Container
     root = common.scratch_root()
@@ -384,6 +427,7 @@ def main(tier, seed, replay=None):
     try:
         bulk_api(ck, dos, tier, lowered=True)
         bulk_api(ck, dos, tier, lowered=False)
+        page_boundaries(ck)
     except Exception as e:
         import traceback
         ck.fail(f'bulk API run raised {type(e).__name__}: {e}', {'kind': 'bulk', 'traceback': traceback.format_exc()[-1500:]}, 'bulk-exception')
